@@ -22,6 +22,8 @@ What is mirrored (function by function):
 * `Topology.remove_node / remove_facility / remove_switch`    → `removeNodeApi`, `removeFacilityApi`, `removeSwitchApi`
 * `Node.remove_component`                                     → `removeComponentApi`
 * `NetworkService.unpeer`                                     → `unpeer`
+* `Topology._disconnect_interfaces`                           → `disconnectDeep`
+* `Topology/Node.remove_network_service`, `Topology.remove_link` → `removeNsApi`, `removeLinkApi`
 * `Interface.remove_child_interface`                          → `removeChild`
 * `ExperimentTopology.prune` (deletion phase)                 → `prune`
 -/
@@ -175,17 +177,24 @@ def disconnectStep (g : G) (i : Nat) : Except Err G :=
 
 def disconnectAll (g : G) (ifs : List Nat) : Except Err G := ifs.foldlM disconnectStep g
 
+/-- the interface and, for a DedicatedPort handle, its sub-interfaces: `(i, *i.interface_list)` -/
+def withSubs (g : G) (i : Nat) : List Nat :=
+  i :: (if g.kind? i == some kDedicatedPort then g.nbrs i .connects .cp else [])
+
+/-- `Topology._disconnect_interfaces(interfaces)`: the handles (with their sub-interface lists) exist before the loop starts -/
+def disconnectDeep (g : G) (ifs : List Nat) : Except Err G := disconnectAll g (ifs.flatMap (withSubs g))
+
 /-- `Topology.remove_node(name)` (name already resolved to the element) -/
 def removeNodeApi (g : G) (n : Nat) : Except Err G :=
   if g.cls? n == some .node && g.kind? n != some kFacility then do
-    let g1 ← disconnectAll g (ifaceListNode g n)
+    let g1 ← disconnectDeep g (ifaceListNode g n)
     removeNodeG g1 n
   else .error .topology
 
 /-- `Topology.remove_facility(name=)` -/
 def removeFacilityApi (g : G) (n : Nat) : Except Err G :=
   if g.cls? n == some .node && g.kind? n == some kFacility then do
-    let g1 ← disconnectAll g (ifaceListNode g n)
+    let g1 ← disconnectDeep g (ifaceListNode g n)
     removeNodeG g1 n
   else .error .topology
 
@@ -196,14 +205,30 @@ def removeSwitchApi (g : G) (n : Nat) : Except Err G :=
 /-- `Node.remove_component(name)` -/
 def removeComponentApi (g : G) (c : Nat) : Except Err G := do
   if g.cls? c == some .comp then
-    let g1 ← disconnectAll g (ifaceListComp g c)
+    let g1 ← disconnectDeep g (ifaceListComp g c)
     removeComp g1 c
+  else .error .query
+
+/-- `Topology.remove_network_service(name)` / `Node.remove_network_service(name)`: the service's own interfaces are
+disconnected from the services they are connected to or peered with, then `remove_ns_with_cps_and_links` -/
+def removeNsApi (g : G) (s : Nat) : Except Err G :=
+  if g.cls? s == some .ns then do
+    let g1 ← disconnectDeep g (g.nbrs s .connects .cp)
+    removeNs g1 s
+  else .error .query
+
+/-- `Topology.remove_link(name)`: the link, then the ServicePorts it peered -/
+def removeLinkApi (g : G) (l : Nat) : Except Err G :=
+  if g.cls? l == some .link then
+    ((g.nbrs l .connects .cp).filter (fun p => g.kind? p == some kServicePort)).foldlM
+      (fun g p => removeCp g p true) (g.minus [l])
   else .error .query
 
 /-- `Interface.remove_child_interface(name=)` through parent handle `h` (child already resolved) -/
 def removeChild (g : G) (h : List Nat) (p c : Nat) : Except Err (G × List Nat) :=
-  if g.kind? p == some kDedicatedPort then
-    (removeCp g c false).map (fun g' => (g', h.filter (fun x => x != c)))
+  if g.kind? p == some kDedicatedPort then do
+    let g1 ← disconnectDeep g [c]
+    (removeCp g1 c false).map (fun g' => (g', h.filter (fun x => x != c)))
   else .error .assertion
 
 /-- the peering search of `unpeer`: first ServicePort of the caller's list with a ServicePort peer in the other list -/
@@ -226,8 +251,8 @@ def unpeer (g : G) (ha hb : List Nat) : Except Err (G × List Nat × List Nat) :
 def prune (g : G) (nodes comps nss ifs : List Nat) : Except Err G := do
   let g1 ← nodes.foldlM removeNodeApi g
   let g2 ← comps.foldlM (fun g c => if g.has c then removeComponentApi g c else .ok g) g1
-  let g3 ← nss.foldlM (fun g s => if g.has s then removeNs g s else .ok g) g2
-  ifs.foldlM (fun g i => if g.has i then removeCp g i true else .ok g) g3
+  let g3 ← nss.foldlM (fun g s => if g.has s then removeNsApi g s else .ok g) g2
+  ifs.foldlM (fun g i => if g.has i then (disconnectDeep g [i]).bind (fun g1 => removeCp g1 i true) else .ok g) g3
 
 /-- a fresh `NetworkService` / `Link` handle: `get_all_ns_or_link_connection_points` -/
 def freshIfs (g : G) (s : Nat) : List Nat := g.nbrs s .connects .cp
